@@ -474,3 +474,73 @@ func ModelIPv4Checksum(bytes []byte) uint16 {
 	}
 	return ^uint16(fold16(fold16(csum)))
 }
+
+// ---------- native replay driver ----------
+
+type replayResult struct {
+	Harness  string   `json:"harness"`
+	Failed   []string `json:"failed"`
+	Known    []string `json:"known"`
+	Reached  []string `json:"reached"`
+	Diverged string   `json:"diverged,omitempty"`
+	Panic    string   `json:"panic,omitempty"`
+	Missing  bool     `json:"missing_harness,omitempty"`
+}
+
+type testingT interface {
+	Fatalf(format string, args ...any)
+	Logf(format string, args ...any)
+}
+
+// ReplayAll runs every replay file named in VERIF_REPLAY_FILES against the package's harness table and
+// writes <file>.out with what the native execution observed.
+func ReplayAll(t testingT, table map[string]func()) {
+	for _, f := range splitComma(os.Getenv("VERIF_REPLAY_FILES")) {
+		if err := Load(f); err != nil {
+			t.Fatalf("load %s: %v", f, err)
+		}
+		name := rf.Harness
+		for i := len(name) - 1; i >= 0; i-- {
+			if name[i] == '.' {
+				name = name[i+1:]
+				break
+			}
+		}
+		res := replayResult{Harness: rf.Harness}
+		h, ok := table[name]
+		if !ok {
+			res.Missing = true
+		} else {
+			if p := RunNative(h); p != nil {
+				res.Panic = fmt.Sprint(p)
+			}
+			mu.Lock()
+			res.Failed, res.Known, res.Reached, res.Diverged = Out.Failed, Out.Known, Out.Reached, Out.Diverged
+			mu.Unlock()
+		}
+		data, _ := json.MarshalIndent(res, "", " ")
+		if err := os.WriteFile(f+".out", data, 0o644); err != nil {
+			t.Fatalf("write: %v", err)
+		}
+		t.Logf("replayed %s: failed=%v panic=%q", f, res.Failed, res.Panic)
+	}
+}
+
+func splitComma(s string) []string {
+	var out []string
+	cur := ""
+	for _, c := range s {
+		if c == ',' {
+			if cur != "" {
+				out = append(out, cur)
+			}
+			cur = ""
+		} else {
+			cur += string(c)
+		}
+	}
+	if cur != "" {
+		out = append(out, cur)
+	}
+	return out
+}
